@@ -614,11 +614,6 @@ def q_only_groups_inductive(res, rel, ql):
     mo = z3.Bool("mon_open")
     gd, gv, ml = z3.BitVec("mon_gid_d", 64), z3.BitVec("mon_gid_v", 8), z3.BitVec("mon_last", 8)
     mc = z3.Const("mon_cat", R.BYTES)
-    def inv(open_, gid_d, gid_v, last, cat, sid_d, sid_v, sfn, sdata):
-        return z3.And(z3.Or(gid_d == 0, gid_d == 1),
-                      z3.If(open_, z3.And(opt_eq(sid_d, sid_v, gid_d, gid_v), sfn == last, z3.UGE(last, 1), sdata == cat),
-                            z3.And(sfn == 0, sid_d == 0)))
-    pre = inv(mo, gd, gv, ml, mc, v.st_id_d, v.st_id_v, v.st_fn, v.st_data)
     valid = z3.Implies(v.t_ok, z3.And(z3.UGE(v.fn, 1), z3.ULE(v.fn, v.nf)))
     acc = accepted(st)
     contin = z3.And(mo, opt_eq(gd, gv, v.id_d, v.id_v), ml == v.fn - 1)
@@ -633,11 +628,26 @@ def q_only_groups_inductive(res, rel, ql):
     n_gd, n_gv = z3.If(opens, v.id_d, gd), z3.If(opens, v.id_v, gv)
     n_last = z3.If(opens, z3.BitVecVal(1, 8), z3.If(conts, v.fn, ml))
     n_cat = z3.If(opens, v.data, z3.If(conts, z3.Concat(mc, v.data), mc))
-    post = inv(n_open, n_gd, n_gv, n_last, n_cat, st.post_id_d, st.post_id_v, st.post_fn, st.post_data)
     cap = [z3.Length(mc) + z3.Length(v.data) <= 384] if rel.heapless else []
-    s, r, dt = solve([st.wf, pre, valid, st.kind != R.K_PANIC] + cap + [z3.Or(bad_accept, bad_data, z3.Not(post))], timeout_s=300)
-    it = ql.add("only-groups-inductive-step[%s]" % rel.cfg, r, dt)
-    record(res, it, {"query": it["query"], "meaning": "Inv(parser state, group monitor) holds for a fresh parser and is preserved by every step; under Inv no non-continuation is accepted and every delivered payload is the monitor's concatenation => histories of any length"})
+    # the closed state is a representation choice of the implementation: candidates, from the exact one of this code base to
+    # weaker ones (each holds for a fresh parser); the first that is inductive establishes the unbounded claim
+    closed_candidates = [("closed = (no id, number 0)", lambda sid_d, sfn: z3.And(sfn == 0, sid_d == 0)),
+                         ("closed = (number 0)", lambda sid_d, sfn: sfn == 0)]
+    r, s, dt_all, used = "unknown", None, 0.0, None
+    for cname, closed in closed_candidates:
+        def inv(open_, gid_d, gid_v, last, cat, sid_d, sid_v, sfn, sdata):
+            return z3.And(z3.Or(gid_d == 0, gid_d == 1),
+                          z3.If(open_, z3.And(opt_eq(sid_d, sid_v, gid_d, gid_v), sfn == last, z3.UGE(last, 1), sdata == cat),
+                                closed(sid_d, sfn)))
+        pre = inv(mo, gd, gv, ml, mc, v.st_id_d, v.st_id_v, v.st_fn, v.st_data)
+        post = inv(n_open, n_gd, n_gv, n_last, n_cat, st.post_id_d, st.post_id_v, st.post_fn, st.post_data)
+        s, r, dt = solve([st.wf, pre, valid, st.kind != R.K_PANIC] + cap + [z3.Or(bad_accept, bad_data, z3.Not(post))], timeout_s=300)
+        dt_all += dt
+        used = cname
+        if r == "unsat":
+            break
+    it = ql.add("only-groups-inductive-step[%s]" % rel.cfg, r, dt_all)
+    record(res, it, {"query": it["query"], "closed_state_invariant": used, "meaning": "Inv(parser state, group monitor) holds for a fresh parser and is preserved by every step; under Inv no non-continuation is accepted and every delivered payload is the monitor's concatenation => histories of any length"})
     if r == "sat":
         m = s.model()
         res.extra.setdefault("inductive_counterexamples", []).append({"query": it["query"], "pre_open": str(m.eval(mo)), "state_fn": str(m.eval(v.st_fn)),
